@@ -65,6 +65,11 @@ def _const_bits(v, w):
     return [(v >> i) & 1 for i in range(w)]
 
 
+def _inconclusive(msg):
+    from sxl.explore import Inconclusive
+    return Inconclusive(msg)
+
+
 _ATLEAST = {}
 
 
@@ -377,10 +382,10 @@ class SInt:
 
     def _divmod_const(self, m):
         if m <= 0:
-            raise NotImplementedError("division by non-positive constant")
+            raise _inconclusive("division by non-positive constant is not modelled")
         lo, hi = self.interval()
         if lo < 0:
-            raise NotImplementedError("division of possibly negative SInt by non power of two")
+            raise _inconclusive("division of a possibly negative symbolic int by a non power of two is not modelled")
         x = self.ubits()
         n = len(x)
         mb = m.bit_length()
